@@ -199,8 +199,21 @@ def _directed(ctx, rep):
     base = scratch_dir("c13d-")
     orig = F.prune_files_by_bounds
     fields = [{"id": 2, "name": "f", "type": "double", "required": False},
-              {"id": 7, "name": "g", "type": "float", "required": False}]
+              {"id": 7, "name": "g", "type": "float", "required": False},
+              {"id": 3, "name": "s", "type": "string", "required": False},
+              {"id": 5, "name": "t", "type": "timestamp", "required": False}]
+    L = "customer-0123456789"
+    T0 = dt.datetime(2020, 1, 1, 12, 0, 0)
     cases = [
+        # long strings sharing a prefix longer than any truncation a writer might apply to bounds
+        ([{"s": L + "-a"}, {"s": L + "-m"}], "s", "==", L + "-m"),
+        ([{"s": L + "-a"}, {"s": L + "-m"}], "s", ">", L + "-b"),
+        ([{"s": L + "-a"}, {"s": L + "-m"}], "s", "between", (L + "-c", L + "-z")),
+        ([{"s": L + "-a"}, {"s": L + "-m"}], "s", "in", [L + "-m"]),
+        ([{"s": "名" * 20 + "a"}, {"s": "名" * 20 + "z"}], "s", ">=", "名" * 20 + "y"),
+        # sub-millisecond timestamps
+        ([{"t": T0.replace(microsecond=100)}, {"t": T0.replace(microsecond=900)}], "t", ">", T0.replace(microsecond=500)),
+        ([{"t": T0.replace(microsecond=100)}, {"t": T0.replace(microsecond=900)}], "t", "==", T0.replace(microsecond=900)),
         ([{"f": 1.0, "g": 0.5}, {"f": NAN, "g": 0.5}], "f", "!=", 1.0),        # fixed 6a270b4 (regression)
         ([{"f": 1.0, "g": 0.1}], "g", "in", [0.1]),                              # float32 narrowing of IN literals
         ([{"f": 1.0, "g": 0.1}], "g", "==", 0.1),
